@@ -46,9 +46,9 @@ import (
 // ------------------------------------------------------------------------------------ case
 
 type series struct {
-	idx                  int
+	idx                 int
 	ty, name, tkey, src string
-	tags                 []string
+	tags                []string
 }
 
 type dispatch struct {
@@ -204,6 +204,7 @@ func gen(args []string) {
 		types := make([]string, ns)
 		nonGauge := []int{}
 		badSeries := -1
+		seenKey := map[string]bool{}
 		if invalid {
 			badSeries = r.Intn(ns)
 		}
@@ -222,7 +223,17 @@ func gen(args []string) {
 			}
 			src := hx.Pick(r, srcPool)
 			tk := gostatsd.FormatTagsKey(gostatsd.Source(src), tags.Copy())
-			p := []string{"s", strconv.Itoa(s), types[s], hx.S(fmt.Sprintf("n%d", s)), hx.S(tk), hx.S(src), strconv.Itoa(len(tags))}
+			// series of one case often share a metric name (clients reporting the same metric under different tags or
+			// sources); the key (type, name, tagsKey) stays unique
+			name := fmt.Sprintf("n%d", s)
+			if shared := "n0"; r.Bool() && !seenKey[types[s]+"\x00"+shared+"\x00"+tk] {
+				name = shared
+			}
+			seenKey[types[s]+"\x00"+name+"\x00"+tk] = true
+			if name == "n0" && s > 0 {
+				st.Hit("series:shared-name")
+			}
+			p := []string{"s", strconv.Itoa(s), types[s], hx.S(name), hx.S(tk), hx.S(src), strconv.Itoa(len(tags))}
 			for _, t := range tags {
 				p = append(p, hx.S(t))
 			}
@@ -336,7 +347,7 @@ func eqStrs(a, b []string) bool {
 // decode turns a message into datapoint ids; anything that was never dispatched counts as junk.
 func (u *upstream) decode(msg *pb.RawMessageV2, b *bodyRec) {
 	chk := func(name, tk, host string, tags []string, ty string) *series {
-		s := u.byName[name]
+		s := u.byName[ty+"\x00"+name+"\x00"+tk]
 		if s == nil || s.ty != ty || s.tkey != tk || s.src != host || !eqStrs(s.tags, tags) {
 			u.junk++
 			return nil
@@ -702,8 +713,8 @@ func runCase(line string) string {
 	u := &upstream{tc: tc, bodies: map[[32]byte]*bodyRec{}, idRound: map[int]int{}, idRacing: map[int]bool{}, idSeries: map[int]int{},
 		byName: map[string]*series{}, seen: map[int]bool{}}
 	for _, s := range tc.series {
-		if _, dup := u.byName[s.name]; !dup {
-			u.byName[s.name] = s
+		if _, dup := u.byName[s.ty+"\x00"+s.name+"\x00"+s.tkey]; !dup {
+			u.byName[s.ty+"\x00"+s.name+"\x00"+s.tkey] = s
 		}
 	}
 	// what must arrive: every non-gauge datapoint; of the gauge datapoints of one round and series the newest
